@@ -78,6 +78,20 @@ func (st *ConcState) SetDyn(v ssa.Value, f DynFact) {
 	st.nils[v] = false
 }
 
+// SetField / SetFieldVal seed what a field of the struct obj denotes holds (ConcCfg.Init).
+func (st *ConcState) SetField(obj ssa.Value, field string, k int64) {
+	if st.fmem == nil {
+		st.fmem = map[string]int64{}
+	}
+	st.fmem[st.fieldKey(obj, field)] = k
+}
+func (st *ConcState) SetFieldVal(obj ssa.Value, field string, v ssa.Value) {
+	if st.fvals == nil {
+		st.fvals = map[string]ssa.Value{}
+	}
+	st.fvals[st.fieldKey(obj, field)] = v
+}
+
 // DynOf: what is known about the dynamic type of interface value v on this path.
 func (st *ConcState) DynOf(v ssa.Value) (DynFact, bool) {
 	for k := 0; k < 16 && v != nil; k++ {
@@ -2070,7 +2084,7 @@ func (st *ConcState) FieldValsOf(obj ssa.Value) map[string]ssa.Value {
 // path: an evident integer/boolean, or the value last stored (nil if nothing is known).
 func (st *ConcState) FieldOf(obj ssa.Value, field string) (k int64, isInt bool, val ssa.Value) {
 	key := st.fieldKey(obj, field)
-	for hop := 0; hop < 3; hop++ {
+	for hop := 0; hop < 6; hop++ {
 		_, h1 := st.fmem[key]
 		_, h2 := st.fvals[key]
 		if h1 || h2 {
